@@ -787,9 +787,59 @@ def gen_stmt(rng, tier):
     return ["setop", rng.random() < 0.6, base, ops, ordby, rng.choice([None, None, 5]), rng.choice([None, None, 0, 1])]
 
 
-def _raw_fix(stmt):
-    """raw SET leaves carry exactly [kind, payload, alias=None] / valb [kind, b, sqlite, alias] / valnone [kind, alias]"""
-    return stmt
+SQLITE_CMP_OK = {"eq", "ne", "gt", "gte", "lt", "lte", "like", "not_like", "glob"}
+
+
+ALIASED_KINDS = (tf.KINDS | {"vdate", "vuuid"}) - {"param", "neg", "star", "empty"}
+
+
+def sqlite_friendly(x, in_container=False):
+    """same shape, restricted to what SQLite can execute (so that the execution oracle gets to judge the statement):
+    no XOR / ILIKE / REGEX, known functions with at least one argument, no explicit placeholders, no arrays, no aliases
+    inside expressions, no bare sub-query operands (other properties' business), HAVING only with GROUP BY, OFFSET only
+    with LIMIT, set-operation members unwrapped, INSERT with a column list"""
+    if isinstance(x, dict):
+        d = {k: sqlite_friendly(v) for k, v in x.items()}
+        if "having" in d:       # a SELECT spec
+            if d["having"] is not None and not d["groupby"]:
+                d["groupby"] = [d["cols"][0]] if d["cols"][0][0] not in VALUE_KINDS else [["field", "a", None, None]]
+            if d["limit"] is None:
+                d["offset"] = None
+        return d
+    if not isinstance(x, list):
+        return x
+    if x and isinstance(x[0], str):
+        k = x[0]
+        if k in ALIASED_KINDS and len(x) >= 2 and (x[-1] is None or isinstance(x[-1], str)) and k != "field":
+            x = x[:-1] + [None]
+        elif k == "field" and len(x) == 4:
+            x = x[:3] + [None]
+        if k == "basic" and len(x) == 5 and x[1] not in SQLITE_CMP_OK:
+            return ["basic", "like", sqlite_friendly(x[2]), sqlite_friendly(x[3]), x[4]]
+        if k == "cplx" and len(x) == 5 and x[1] == "xor":
+            return ["cplx", "and", sqlite_friendly(x[2]), sqlite_friendly(x[3]), x[4]]
+        if k == "func" and len(x) == 4:
+            args = [sqlite_friendly(a) for a in x[2]] or [["vali", 1, None]]
+            return ["func", "ABS", args[:1], x[3]] if x[1] != "COALESCE" or len(args) < 2 else ["func", "COALESCE", args, x[3]]
+        if k == "param" and len(x) == 2:
+            return ["vali", 4, None]
+        if k == "array" and len(x) == 3:
+            return ["tuple", [sqlite_friendly(a) for a in x[1]] or [["vali", 1, None]], x[2]]
+        if k == "tuple" and len(x) == 3 and not x[1]:
+            return ["tuple", [["vali", 1, None]], x[2]]
+        if k == "lit" and len(x) == 3:
+            return ["lit", "CURRENT_DATE", x[2]]
+        if k == "sub" and len(x) == 2 and not in_container:
+            return ["vali", 6, None]
+        if k == "in" and len(x) == 5 and isinstance(x[2], list) and x[2] and x[2][0] == "sub":
+            return ["in", sqlite_friendly(x[1]), sqlite_friendly(x[2], True), x[3], x[4]]
+        if k == "vals" and isinstance(x[1], str) and "\x00" in x[1]:
+            return ["vals", "nul", x[2]]
+        if k == "setop" and len(x) == 7:
+            return ["setop", False] + [sqlite_friendly(y) for y in x[2:]]
+        if k == "insert" and len(x) == 4 and not x[2]:
+            return ["insert", x[1], COLS[:len(x[3][0])], sqlite_friendly(x[3])]
+    return [sqlite_friendly(y) for y in x]
 
 
 def gen_cases(rng, tier):
@@ -812,7 +862,10 @@ def gen_cases(rng, tier):
             out.append({"kind": "term", "t": t, "c": dict(tf.STR_CTX), "sty": sty})
         else:
             st = gen_stmt(rng, tier)
-            out.append({"kind": "stmt", "s": st, "dialect": rng.choice(["generic", "sqlite", "sqlite"]), "sty": sty})
+            dialect = rng.choice(["generic", "sqlite", "sqlite"])
+            if dialect == "sqlite" and rng.random() < 0.7:
+                st = sqlite_friendly(st)
+            out.append({"kind": "stmt", "s": st, "dialect": dialect, "sty": sty})
     for c in out:
         _normalise_raw(c)
     return out
